@@ -313,7 +313,7 @@ func runShard(sc scen, deadlineS int) *shardResult {
 	sh := &shard{sc: sc, viols: map[string]*viol{}}
 	start := time.Now()
 	cfg := vsched.Config{
-		Deadline: start.Add(time.Duration(deadlineS) * time.Second),
+		Deadline:  start.Add(time.Duration(deadlineS) * time.Second),
 		MaxFailed: 2000,
 		Setup: func(s *vsched.Sched) vsched.Harness {
 			if sc.Comp != "queue" {
